@@ -225,7 +225,56 @@ class Check:
             self.coq_log = (out + err)[-6000:]
         return failed
 
-    def coq_properties(self, module=None, timeout=900):
+    def coq_regen(self, files, order=None, timeout=1800):
+        """Translator tie. `files`: dict {"Name.v": text} freshly generated from /repo. If every text equals the committed
+        coq/gen/Name.v the committed (already compiled) files are used and None is returned. Otherwise ALL of coq/gen is
+        copied to build/work/<pid>/gen, the regenerated texts are written over the copies, and every file there is
+        recompiled (order: `order` if given else dependency order from coqdep) with -Q <that dir> VerifGen. Returns
+        (gen_dir, failed_files, log). Rule: only coq/gen/*.v and Properties_*.v may import VerifGen."""
+        gen = os.path.join(COQ, "gen")
+        same = True
+        for n, txt in files.items():
+            p = os.path.join(gen, n)
+            if not os.path.exists(p) or open(p).read() != txt:
+                same = False
+        if same:
+            return None
+        wgen = os.path.join(self.work, "gen")
+        shutil.rmtree(wgen, ignore_errors=True)
+        os.makedirs(wgen)
+        for p in glob.glob(os.path.join(gen, "*.v")):
+            shutil.copy(p, wgen)
+        for n, txt in files.items():
+            open(os.path.join(wgen, n), "w").write(txt)
+        args = ["-Q", os.path.join(COQ, "theories"), "Verif", "-Q", wgen, "VerifGen", "-w", "-all"]
+        if order is None:
+            rc, out, err = sh(["coqdep"] + args[:-2] + sorted(glob.glob(os.path.join(wgen, "*.v"))), timeout=120)
+            deps = {}
+            for line in out.splitlines():
+                m = re.match(r"(\S+)\.vo\b.*?:\s*(.*)", line)
+                if m and m.group(1).startswith(wgen):
+                    deps[os.path.basename(m.group(1)) + ".v"] = [os.path.basename(d)[:-1] for d in m.group(2).split()
+                                                               if d.endswith(".vo") and d.startswith(wgen)]
+            order, seen = [], set()
+
+            def visit(n):
+                if n in seen:
+                    return
+                seen.add(n)
+                for d in deps.get(n, []):
+                    visit(d)
+                order.append(n)
+            for n in sorted(deps):
+                visit(n)
+        failed, log = [], ""
+        for n in order:
+            rc, out, err = sh(["coqc"] + args + [os.path.join(wgen, n)], cwd=wgen, timeout=timeout)
+            if rc != 0:
+                failed.append(n)
+                log += (out + err)[-3000:]
+        return wgen, failed, log
+
+    def coq_properties(self, module=None, timeout=900, gen_dir=None):
         """Re-compile theories/Properties/Properties_<id>.v (it only contains `exact lemma` proofs, so this is
         cheap) and parse theorem names + Print Assumptions output. Records obligations."""
         module = module or ("Properties_" + self.pid)
@@ -239,7 +288,18 @@ class Check:
         deps_ok = not failed
         # then always recompile the property file itself to capture Print Assumptions
         args = self._coq_args()
-        rc, out, err = sh(["coqc"] + args + [rel], cwd=COQ, timeout=timeout)
+        if gen_dir:
+            fixed, it = [], iter(args)
+            for a in it:
+                if a in ("-Q", "-R"):
+                    d = next(it); n = next(it)
+                    fixed += [a, (gen_dir if n == "VerifGen" else os.path.join(COQ, d)), n]
+                else:
+                    fixed.append(a)
+            outvo = os.path.join(self.work, module + ".vo")
+            rc, out, err = sh(["coqc"] + fixed + ["-o", outvo, os.path.join(COQ, rel)], cwd=COQ, timeout=timeout)
+        else:
+            rc, out, err = sh(["coqc"] + args + [rel], cwd=COQ, timeout=timeout)
         text = out + err
         res = []
         # split output per "Print Assumptions": they appear in order of the theorems
@@ -292,15 +352,20 @@ class Check:
         return rc, out + err
 
     # ------------------------------------------------------------------ OCaml extraction
-    def ocaml_model(self, extract_v, drivers, name=None, timeout=900):
+    def ocaml_model(self, extract_v, drivers, name=None, timeout=900, gen_dir=None):
         """extract_v: path under coq/extract (contains `Extraction "x.ml" ...`), drivers: list of .ml under ml/.
-        Returns path of the native executable."""
+        A driver named "zconv.ml" is generated from ml/zconv.ml.in for the extracted module (first .ml produced by the
+        extraction): conversions between zarith and the extracted positive/N/Z. Returns path of the native executable."""
         name = name or os.path.splitext(os.path.basename(extract_v))[0].lower()
         ev = os.path.join(COQ, "extract", extract_v)
+        want_zconv = "zconv.ml" in drivers
+        drivers = [d for d in drivers if d != "zconv.ml"]
         drv = [os.path.join(VERIF, "ml", d) for d in drivers]
+        if want_zconv:
+            drv.append(os.path.join(VERIF, "ml", "zconv.ml.in"))
         # key: extraction file + drivers + all theory sources (cheap to hash)
         theory = glob.glob(os.path.join(COQ, "theories", "**", "*.v"), recursive=True) + \
-            glob.glob(os.path.join(COQ, "gen", "*.v"))
+            glob.glob(os.path.join(gen_dir or os.path.join(COQ, "gen"), "*.v"))
         key = file_hash([ev] + drv + theory)[:16]
         outdir = os.path.join(BUILD, "ml", name)
         exe = os.path.join(outdir, "%s-%s" % (name, key))
@@ -314,16 +379,26 @@ class Check:
                     if a in ("-Q", "-R"):
                         d = next(it)
                         n = next(it)
-                        args += [a, os.path.join(COQ, d), n]
+                        args += [a, (gen_dir if (gen_dir and n == "VerifGen") else os.path.join(COQ, d)), n]
                 rc, out, err = sh(["coqc"] + args + [ev], cwd=outdir, timeout=timeout)
                 if rc != 0:
                     raise RuntimeError("extraction failed: %s\n%s" % (out[-3000:], err[-3000:]))
                 mls = sorted(glob.glob(os.path.join(outdir, "*.ml")))
                 mlis = sorted(glob.glob(os.path.join(outdir, "*.mli")))
+                drv_names = []
                 for d in drv:
-                    shutil.copy(d, outdir)
-                order = [os.path.basename(x) for x in mlis] + [os.path.basename(x) for x in mls] + \
-                    [os.path.basename(d) for d in drv]
+                    if d.endswith("zconv.ml.in"):
+                        modname = os.path.splitext(os.path.basename(mls[0]))[0].capitalize()
+                        tmpl = open(d).read()
+                        mlsrc = open(mls[0]).read()
+                        if not re.search(r"(?m)^type n =", mlsrc):
+                            tmpl = tmpl.split("(* N / nat helpers *)")[0]
+                        open(os.path.join(outdir, "zconv.ml"), "w").write(tmpl.replace("@M@", modname))
+                        drv_names.insert(0, "zconv.ml")
+                    else:
+                        shutil.copy(d, outdir)
+                        drv_names.append(os.path.basename(d))
+                order = [os.path.basename(x) for x in mlis] + [os.path.basename(x) for x in mls] + drv_names
                 rc, out, err = sh(["ocamlfind", "ocamlopt", "-O3", "-w", "-a", "-package", "str,zarith", "-linkpkg"] + order +
                                   ["-o", exe + ".tmp"], cwd=outdir, timeout=timeout)
                 if rc != 0:
